@@ -4,11 +4,43 @@ decision than `iterSpec`; the violation carries that state (model-level witness)
 (C01, C06) search the implementation.  Used by C01 and C06."""
 import os, re, sys
 sys.path.insert(0, os.path.dirname(os.path.abspath(__file__)))
-import vlib, gen_resubmit
+import vlib, gen_resubmit, gen_topup
 
 THMS = ["IsalVerif.GenProps.Resubmit.all_canon", "IsalVerif.GenProps.Resubmit.all_count",
         "IsalVerif.GenProps.Resubmit.resubmit_current", "IsalVerif.GenProps.Resubmit.paramsOf_is_standard",
         "IsalVerif.ResubmitC.canon_iter", "IsalVerif.ResubmitC.iter_refines", "IsalVerif.ResubmitC.resubmit_eq_iterModel"]
+
+
+THMS_TOP = ["IsalVerif.GenProps.TopUp.all_canon", "IsalVerif.GenProps.TopUp.all_count", "IsalVerif.GenProps.TopUp.topup_current",
+            "IsalVerif.TopUpC.canon_topup", "IsalVerif.TopUpC.topup_refines", "IsalVerif.TopUpC.submitTail_eq_topModel"]
+
+
+def topup_obligations(chk):
+    """the block of submit that tops up the partial buffer (tools/gen_topup.py -> Gen/TopUp.lean -> GenProps/TopUp.lean)"""
+    b = vlib.build_repo.get_build("default")
+    try:
+        rows = gen_topup.main([os.path.join(b, "src"), vlib.LEAN])
+        gen_err = ""
+    except Exception as e:
+        rows, gen_err = [], str(e)[:300]
+    chk.oblige("translator: top-up block of %d context-layer files -> Gen/TopUp.lean" % len(rows), bool(rows) and not gen_err, gen_err)
+    failed = vlib.lean_obligations(chk, "IsalVerif.GenProps.TopUp", THMS_TOP) if rows else [("gen_topup", gen_err)]
+    chk.cov["topup_block"] = {"functions": len(rows), "theorems": THMS_TOP}
+    if failed:
+        src = ("import IsalVerif.Gen.TopUp\nopen IsalVerif.TopUpC\n"
+               "def bz : String → Nat\n  | \"sha512\" => 128\n  | _ => 64\n"
+               "#eval (IsalVerif.Gen.TopUp.all.filter fun x => !decide (x.prog = canon (bz x.alg))).map (·.file)\n")
+        path = os.path.join(vlib.scratch(), "topup_diff.lean")
+        open(path, "w").write(src)
+        vlib.lake_build(["IsalVerif.Gen.TopUp"])
+        r = vlib.run(["lake", "env", "lean", path], cwd=vlib.LEAN)
+        files = re.findall(r'"([^"]+\.c)"', r.stdout)
+        for f in files or ["?"]:
+            chk.violation("top-up block of the submit function in %s no longer the proved one" % f,
+                          {"kind": "topup-block", "file": f, "broken_obligations": [x[0] for x in failed],
+                           "note": "the translated block differs from TopUpC.canon; the implementation is searched by the correspondence "
+                                   "sweeps of this check"}, no_input=True, match={"file": f, "monitor": "topup-block"})
+    return not failed
 
 
 def lean_witnesses():
@@ -38,8 +70,9 @@ def obligations(chk, tier):
     chk.oblige("translator: resubmit loop body of %d context-layer files -> Gen/Resubmit.lean" % len(rows), bool(rows) and not gen_err, gen_err)
     failed = vlib.lean_obligations(chk, "IsalVerif.GenProps.Resubmit", THMS) if rows else [("gen_resubmit", gen_err)]
     chk.cov["resubmit_loop"] = {"functions": len(rows), "theorems": THMS}
+    top_ok = topup_obligations(chk)
     if not failed:
-        return True
+        return top_ok
     wit, raw = lean_witnesses()
     for f, w in wit:
         chk.violation("resubmit loop body of %s no longer the proved one%s" % (f, (": status=%d partial=%d incoming=%d (hash_pad returns %d)" % w) if w else ""),
